@@ -136,14 +136,25 @@ Definition edit_remove (s : store) (u : uid) : store :=
   | Some _ => map (fun kn => (fst kn, remove_parent (snd kn) u)) (delete u s)
   end.
 
-Definition s_from (es : list ent) : tres store :=
-  match insert_all [] es with TErr e => TErr e | TOk s => recompute (graph_of s) end.
-Definition s_add (s : store) (es : list ent) : tres store :=
-  match insert_all s es with TErr e => TErr e | TOk s' => recompute (graph_of s') end.
-Definition s_upsert (s : store) (es : list ent) : tres store :=
-  recompute (graph_of (fold_left upd_over es s)).
-Definition s_remove (s : store) (us : list uid) : tres store :=
-  recompute (graph_of (fold_left edit_remove us s)).
+Inductive op :=
+| OFrom (compute : bool) (es : list ent)
+| OAdd (compute : bool) (es : list ent)
+| OUpsert (compute : bool) (es : list ent)
+| ORemove (compute : bool) (us : list uid).
+Definition op_compute (o : op) : bool :=
+  match o with OFrom c _ | OAdd c _ | OUpsert c _ | ORemove c _ => c end.
+
+(* the edit of the map / of the direct parents, exactly as the code performs it *)
+Definition s_edit (s : store) (o : op) : tres store :=
+  match o with
+  | OFrom _ es => insert_all [] es
+  | OAdd _ es => insert_all s es
+  | OUpsert _ es => TOk (fold_left upd_over es s)
+  | ORemove _ us => TOk (fold_left edit_remove us s)
+  end.
+(* ... followed by recomputing every cached closure from the direct parents *)
+Definition s_compute (s : store) (o : op) : tres store :=
+  match s_edit s o with TErr e => TErr e | TOk s1 => recompute (graph_of s1) end.
 
 (* ------------------------------------------------------------------ incremental layer *)
 (* add_ancestors: DFS over the ancestors of u; nodes in `seen` are trusted to be saturated *)
@@ -266,11 +277,6 @@ Definition q_ancestors (s : store) (u : uid) : option (list uid) :=
   match find u s with Some n => Some (ancestors n) | None => None end.
 
 (* ------------------------------------------------------------------ histories *)
-Inductive op :=
-| OFrom (compute : bool) (es : list ent)
-| OAdd (compute : bool) (es : list ent)
-| OUpsert (compute : bool) (es : list ent)
-| ORemove (compute : bool) (us : list uid).
 
 (* incremental layer: the code as written *)
 Definition i_op (s : store) (o : op) : tres store :=
@@ -282,13 +288,7 @@ Definition i_op (s : store) (o : op) : tres store :=
   end.
 (* spec layer: ComputeNow operations recompute; EnforceAlreadyComputed has no separate spec *)
 Definition s_op (s : store) (o : op) : tres store :=
-  match o with
-  | OFrom true es => s_from es
-  | OAdd true es => s_add s es
-  | OUpsert true es => s_upsert s es
-  | ORemove true us => s_remove s us
-  | _ => i_op s o
-  end.
+  if op_compute o then s_compute s o else i_op s o.
 (* the store operations take the store by value; a caller that wants to continue after a failure
    keeps a copy: a failed operation leaves the history's store unchanged *)
 Definition step (f : store -> op -> tres store) (s : store) (o : op) : store :=
